@@ -1,0 +1,19 @@
+//go:build verif
+
+package shell_operator
+
+import (
+	"context"
+
+	"github.com/deckhouse/deckhouse/pkg/log"
+
+	kubeeventsmanager "github.com/flant/shell-operator/pkg/kube_events_manager"
+	schedulemanager "github.com/flant/shell-operator/pkg/schedule_manager"
+	"github.com/flant/shell-operator/pkg/task/queue"
+)
+
+// VerifNewManagerEventsHandler exposes the unexported constructor of the events consumer to the
+// verification harness (properties C03, C17).
+func VerifNewManagerEventsHandler(ctx context.Context, tqs *queue.TaskQueueSet, mgr kubeeventsmanager.KubeEventsManager, smgr schedulemanager.ScheduleManager) *ManagerEventsHandler {
+	return newManagerEventsHandler(ctx, &managerEventsHandlerConfig{tqs: tqs, mgr: mgr, smgr: smgr, logger: log.NewNop()})
+}
